@@ -235,7 +235,15 @@ impl FunctionType {{
 }} // verus!
 fn main() {{}}
 """
+    # KF twin (D121): the property's side of the coercion -- the element type handed out (slot 0) accepts EVERY slot, not just its neighbour
+    i0 = gen.index("    //@ OBL C02.coerce.open"); i1 = gen.index("impl FunctionType {", i0); i1 = gen.rindex("}", i0, i1)
+    twin = gen[i0:i1].replace("//@ OBL C02.coerce.open", "//@ KF C02.coerce.every-slot-fits").replace("pub fn try_coerce_to_open(", "pub fn try_coerce_to_open_every_slot(") \
+        .replace("        ensures\n", "        ensures\n            (self is Mixed && r is Ok) ==> forall|j: int| 0 <= j < self->Mixed_0@.len() ==> compat(self->Mixed_0@[0], #[trigger] self->Mixed_0@[j], *comparison_flags),\n", 1)
+    assert "every-slot-fits" in twin and "forall|j: int| 0 <= j < self->Mixed_0@.len()" in twin
+    gen = gen[:i1] + twin + gen[i1:]
     obls = [
+        Obl("C02.coerce.every-slot-fits", ["C02"], kind="kf", finding="D121", fn="try_coerce_to_open_every_slot",
+            desc="try_coerce_to_open: the element type of the [T...] a fixed-shape list is treated as accepts EVERY slot of the list -- known finding D121: only neighbours are compared, and `nil` is a neighbour of every optional"),
         Obl("C02.compat.function.eq", ["C02", "C03"], fn="FunctionType::eq", desc="PartialEq for FunctionType: same arity, return types agree for signature checking, every parameter pair compatible under signature_check flags"),
         Obl("C02.compat.list.mixed-mixed", ["C02", "C03"], fn="eq_complex_arm_mixed_mixed", desc="eq_complex, [A, B] vs [C, D]: compatible exactly when both have the same number of slots and every slot is"),
         Obl("C02.compat.list.open-open", ["C02", "C03"], fn="eq_complex_arm_open_open", desc="eq_complex, [T...] vs [U...]: compatible exactly when T and U are"),
@@ -251,4 +259,4 @@ UNITS = [VUnit("c02_compat", ["C02", "C03", "C16"], "list arms of the type-compa
 UNITS[0].assumes = ["fragment extraction: the three list arms of eq_complex are verified as functions of the bound variables (t1, t2, flags); the arms in front of them "
                     "(generics, ClassSelf) and the `lhs == rhs` shortcut are separate; the non-list arms (optionals, str) are not under contract",
                     "compat (the recursive eq_complex result on component types) is uninterpreted: the contracts are about how list compatibility is composed from it",
-                    "that adjacent-pair compatibility of all slots implies compatibility of every slot with slot 0 needs transitivity of eq_complex on the slot types (not proved)"]
+                    "that adjacent-pair compatibility of all slots implies compatibility of every slot with slot 0 needs transitivity of eq_complex on the slot types: false when a slot is a bare `nil` (known finding D121, KF twin C02.coerce.every-slot-fits)"]
